@@ -160,6 +160,8 @@ def rule_r2(repo):
         res = it.run_function(fi, lambda: dict([('self', obj)] + list(zip(fi.params[1:], args))), self_class='BitStringBitReader')
         for f in formats:
             n_formats += 1
+            if isinstance(f, int) and not isinstance(f, bool):
+                continue          # read(n): n bits, sized by construction
             if not isinstance(f, str):
                 raise AnalysisError('%s(%s): the format handed to the stream does not fold to a string (%r)' % (meth, args, f))
             if ':' not in f.split('=')[0]:
@@ -416,5 +418,8 @@ def run(repo, check):
     from sa.rules import c17
     from sa.rules.common import share
     share(check, repo, c17.rule_r3, 'C12.R9', 'disabling the signature check for one decode does not disable it for later ones: shared layouts are not written (shared with C17.R3)')
+    from sa.rules import c04
+    share(check, repo, c04.rule_r3, 'C12.R10', 'a decreased (down to zero) or increased declared section length: shorter than the content is refused with a library error, '
+          'longer is skipped (shared with C04.R3, decoder part)', keep=lambda f: f.key.startswith('Decoder.'), args=('quick',))
     check.assumptions = ['implicit exceptions are decided only where a fold executes the code (R5, R7, R8: template walk, template construction, scanner); elsewhere only explicit raise/assert sites are decided',
                          'bitstring raises a subclass of bitstring.Error on a short read of a sized format (uint:n, bytes:n, bin:n) and ValueError on a short read of the unsized bool format (bitstring 4.x, confirmed by reading its source and by experiment)']
